@@ -281,6 +281,16 @@ Theorem c19_tracker_independent_of_stale : forall d n0 f0 f0' mid,
 Proof. exact tracker_independent_of_stale. Qed.
 Print Assumptions c19_tracker_independent_of_stale.
 
+(* A life leaves a well-formed file system well formed (also without tmp_dir, also when the
+   environment writes anywhere): the theorems above apply again to the next tracker, on what
+   this one left — histories of runs sharing a tmp_dir are covered by iterating them. *)
+Theorem c19_tracker_life_keeps_wf : forall f0 tmp n0 mid,
+  wf f0 -> forallb mid_op mid = true ->
+  match tmp with Some d => look f0 d = Dir /\ look f0 (d ++ [n0]) = Absent | None => True end ->
+  wf (s_fs (life f0 tmp n0 mid)).
+Proof. exact tracker_life_keeps_wf. Qed.
+Print Assumptions c19_tracker_life_keeps_wf.
+
 (* ------------------------------------------------------------------ examples (tracker) *)
 (* names: 1 = in/, 2 = out/, 3 = tmp/; [1;1] query (11), [1;2] statistics (12); [2;1] the
    result of an earlier run (21); tmp/ holds a stale file_tracker_* directory 9 with a file *)
